@@ -71,6 +71,7 @@ type World struct {
 	initCache  map[*ssa.Global][]ssa.Instruction
 	regexCache map[string]*Term
 	qcache     sync.Map
+	initMu     sync.Mutex
 	crossB     bool // also race cvc5 on bounded-stage queries
 }
 
@@ -350,6 +351,8 @@ func rootAlloc(v ssa.Value) ssa.Value {
 }
 
 func (w *World) initSlice(g *ssa.Global) []ssa.Instruction {
+	w.initMu.Lock()
+	defer w.initMu.Unlock()
 	if s, ok := w.initCache[g]; ok {
 		return s
 	}
